@@ -105,6 +105,11 @@ CONTRACTS = {
               '0 <= ties1', 'ties1 <= 1', 'skew > 0'],
     defs={'list_ok': (['L'], 'minpreflistlength <= len(L) and len(L) <= maxpreflistlength and dupfree(L) and forall(x, implies(x in elems(L), 1 <= x and x <= n2))')},
     loops={0: dict(invariant=['len(pref_lists_agent1) == n1', 'forall(i, 0, _k, list_ok(pref_lists_agent1[i]))'])},
+    # C17 "used as sampling weights": the weights handed to every draw are the linear distribution for (n2, skew)
+    asserts={'loop0.body_end': [('every-draw-uses-the-linear-popularity-weights',
+        'len(_choice_weights) == n2 and forall(j, 0, n2, _choice_weights[j] > 0) and SumR(j, n2, _choice_weights[j]) == 1'
+        ' and forall(j, 0, n2 - 2, _choice_weights[j+2] - _choice_weights[j+1] == _choice_weights[j+1] - _choice_weights[j])'
+        ' and implies(n2 >= 2, _choice_weights[n2 - 1] == skew * _choice_weights[0]) and implies(n2 == 1, _choice_weights[0] == 1)')]},
     returns=('tuple', ('list', ('list', 'int')), ('list', ('list', 'int'))),
     ensures=[('one-list-per-first-side-agent', 'len(result0) == n1'),
              ('between-pmin-and-pmax-distinct-agents-of-the-other-side', 'forall(i, 0, n1, list_ok(result0[i]))'),
